@@ -154,12 +154,60 @@ def s2c(ctx, cases):
 
 
 # ---------------------------------------------------------------------------------------------------------
-# sessions (spec/IncSession.tla): one table, a pool of caller-owned filter objects, a history of calls that
-# take one or several filters from the pool in any spelling; the pool and the table are snapshotted after
-# every call
+# sessions (spec/IncSession.tla): two tables, a pool of caller-owned filter objects, a history of calls that
+# take one or several filters from the pool in any spelling - and of the caller's own in-place edits of his
+# objects between the calls; the pool and the tables are snapshotted after every call.  The inputs arrive in the
+# law's column names a, b, c, d together with a naming; the driver renders them under the naming (the real table's
+# columns are called data, key, self, ...), everything observed is encoded in the real names.
 # ---------------------------------------------------------------------------------------------------------
-PRED_NAME = {id(f): n for n, f in PREDS.items()}
 RE_NAME = {id(r): n for n, r in REGEX.items()}
+# the named predicates of spec/Table.tla as source text over the law's columns a, b: a callable on named columns is
+# rendered under the session's naming (its parameters ARE the column names) and in the realisation the pool asks for
+PRED_SRC = {
+    'a_is_none': ('a', '{a} is None'),
+    'a_eq_b': ('ab', '{a} == {b}'),
+    'b_is_str': ('b', 'isinstance({b}, str)'),
+    'a_num_gt_1': ('a', 'isinstance({a}, (int, float)) and {a} > 1'),
+    'always': ('', 'True'),
+    'never': ('a', 'False'),
+    'a_truthy': ('a', '{a}'),
+    'b_strlen': ('b', 'len({b}) if isinstance({b}, str) else 0'),
+    'a_is_b': ('ab', '{a} is {b} and ({a} is None or (isinstance({a}, float) and {a} != {a}))'),
+    'a_above_1': ('a', 'isinstance({a}, (int, float)) and {a} > 1'),
+    'a_above_2': ('a', 'isinstance({a}, (int, float)) and {a} > 2'),
+    'a_above_0': ('a', 'isinstance({a}, (int, float)) and {a} > 0'),
+}
+REALS = ['lambda', 'def', 'partial', 'partial_kw', 'callobj', 'bound', 'classm', 'try_false', 'try_none', 'kwargs_support']
+IDENTITY = {'a': 'a', 'b': 'b', 'c': 'c', 'd': 'd'}
+
+
+def build_pred(name, real, names):
+    """the predicate `name` as a Python callable of the given realisation whose parameters are the real column names"""
+    if real == 'lambda' and all(names[c] == c for c in 'ab'):
+        return PREDS[name]                                  # the very objects of the single-call families (closures of one code object)
+    import functools
+    import pyg_base
+    if not all(names[c].isidentifier() for c in 'ab'):      # no callable can be written on such columns (the spec: NameExpressible); a stand-in that no judged call takes
+        names = IDENTITY
+    cols, expr = PRED_SRC[name]
+    params = ', '.join(names[c] for c in cols)
+    body = expr.format(a=names['a'], b=names['b'])
+    ns = {}
+    if real in ('lambda', 'try_false', 'try_none', 'kwargs_support'):
+        f = eval('lambda %s: %s' % (params, body))
+        return f if real == 'lambda' else getattr(pyg_base, real)(f)
+    if real == 'def':
+        exec('def pred(%s):\n    return %s' % (params, body), ns)
+        return ns['pred']
+    if real == 'partial':                                   # functools.partial binding a leading parameter that is no column
+        exec('def pred(%s):\n    return %s' % (', '.join(['_k0'] + [names[c] for c in cols]), body), ns)
+        return functools.partial(ns['pred'], 0)
+    if real == 'partial_kw':
+        exec('def pred(%s):\n    return %s' % (', '.join([names[c] for c in cols] + ['_k0 = 1']), body), ns)
+        return functools.partial(ns['pred'], _k0=0)
+    head = {'callobj': 'def __call__(_me%s)', 'bound': 'def m(_me%s)', 'classm': '@classmethod\n    def m(_cls%s)'}[real]
+    exec('class P(object):\n    %s:\n        return %s' % (head % (', ' + params if params else ''), body), ns)
+    return ns['P']() if real == 'callobj' else ns['P']().m if real == 'bound' else ns['P'].m
 
 
 def seq(x):
@@ -167,102 +215,181 @@ def seq(x):
     return list(x) if x else []
 
 
-def render_pool(pool, ids):
-    """the caller's objects: a callable, or a dict of conditions; a list of admissible values that occurs in two dicts of the
-    pool with the same contents is ONE list object held by both (a caller who reuses his list)"""
-    lists = {}
-    def cc_obj(cc):
-        if cc[0] == 'list':
-            key = repr(cc[1])
-            if key not in lists:
-                lists[key] = cell_cond(cc, ids)
-            return lists[key]
-        return cell_cond(cc, ids)
-    return [PREDS[f['name']] if f['kind'] == 'pred' else {c: cc_obj(cc) for c, cc in seq(f['items'])} for f in pool]
+def ren_table(t, names):
+    return {'cols': [names[c] for c in t['cols']], 'rows': [{names[c]: v for c, v in r.items()} for r in t['rows']]}
 
 
-def enc_obj(o, ids):
-    """a pool object as its owner sees it; a dict has no order that matters: conditions by column name"""
-    if type(o) is dict:
-        def e(v):
-            if isinstance(v, list): return ['list', [tag(x, ids) for x in v]]
-            if id(v) in RE_NAME: return ['re', RE_NAME[id(v)]]
-            return ['val', tag(v, ids)]
-        return {'kind': 'dict', 'name': '', 'items': [[str(c), e(v)] for c, v in sorted(o.items(), key=lambda kv: str(kv[0]))]}
-    if id(o) in PRED_NAME:
-        return {'kind': 'pred', 'name': PRED_NAME[id(o)], 'items': []}
-    return {'kind': 'other', 'name': type(o).__name__, 'items': []}
+class Objects(object):
+    """the caller's objects of one session: the pool, every list of admissible values under its identity, the callables"""
+    def __init__(self, ids, names, tcols):
+        self.ids, self.names, self.tcols = ids, names, tcols
+        self.lists, self.lid, self.preds, self.keep = {}, {}, {}, []
+
+    def cc_obj(self, cc):
+        if cc[0] == 'list':                                 # <<"list", contents, id>>: ONE list object per id
+            if cc[2] not in self.lists:
+                self.lists[cc[2]] = [untag(x, self.ids) for x in cc[1]]
+                self.lid[id(self.lists[cc[2]])] = cc[2]
+            return self.lists[cc[2]]
+        return cell_cond(cc, self.ids)
+
+    def render(self, f):
+        if f['kind'] == 'pred':
+            o = build_pred(f['name'], f['real'], self.names)
+            self.preds[id(o)] = (f['name'], f['real']); self.keep.append(o)
+            return o
+        return {self.names[c]: self.cc_obj(cc) for c, cc in seq(f['items'])}
+
+    def enc(self, o):
+        """a pool object as its owner sees it; a dict has no order that matters: conditions in the table's column order"""
+        if type(o) is dict:
+            def e(v):
+                if isinstance(v, list): return ['list', [tag(x, self.ids) for x in v], self.lid.get(id(v), 0)]
+                if id(v) in RE_NAME: return ['re', RE_NAME[id(v)]]
+                return ['val', tag(v, self.ids)]
+            pos = {c: k for k, c in enumerate(self.tcols)}
+            return {'kind': 'dict', 'name': '', 'real': 'dict',
+                    'items': [[str(c), e(v)] for c, v in sorted(o.items(), key=lambda kv: (pos.get(kv[0], len(pos)), str(kv[0])))]}
+        if id(o) in self.preds:
+            return {'kind': 'pred', 'name': self.preds[id(o)][0], 'real': self.preds[id(o)][1], 'items': []}
+        return {'kind': 'other', 'name': type(o).__name__, 'real': '', 'items': []}
+
+    def fresh_copy(self, objs):
+        """new objects holding, by value, what objs hold now (a caller who writes the literal again); the lists keep their ids
+        for the encoding only"""
+        new = Objects(self.ids, self.names, self.tcols)
+        new.preds, new.keep = self.preds, self.keep
+        out = []
+        for o in objs:
+            if type(o) is dict:
+                d = {}
+                for c, v in o.items():
+                    if isinstance(v, list):
+                        k = self.lid.get(id(v), 0)
+                        if k not in new.lists:
+                            new.lists[k] = list(v); new.lid[id(new.lists[k])] = k
+                        v = new.lists[k]
+                    d[c] = v
+                out.append(d)
+            else:
+                out.append(o)
+        return new, out
 
 
 def spelled(call, pool):
-    """the shape of a call, e.g. inc(d,f,**d), r.exc(d) (r = the previous result) - a stable key for known-finding matchers"""
-    a = ['d' if pool[s - 1]['kind'] == 'dict' else 'f' for s in seq(call['pos'])]
-    if call['kw']: a.append('**d')
-    if call['x']: a.append('exc=d')
-    return '%s%s(%s)' % ('r.' if call.get('on') == 'last' else '', call['op'] if call['op'] != 'find' else 'find_' + call['col'], ','.join(a))
+    """the shape of a call, e.g. inc(d,f,**d), r.exc(d) (r = the previous result), u.inc(d') (fresh objects with the old contents on
+    the second table) - a stable key for known-finding matchers"""
+    if call['op'] == 'edit':
+        return 'edit-' + call['what']
+    q = "'" if call.get('src') == 'old' else ''
+    a = [('d' if pool[s - 1]['kind'] == 'dict' else 'f') + q for s in seq(call['pos'])]
+    if call['kw']: a.append('**d' + q)
+    if call['x']: a.append('exc=d' + q)
+    return '%s%s(%s)' % ({'last': 'r.', 'u': 'u.'}.get(call.get('on'), ''), call['op'] if call['op'] != 'find' else 'find_' + call['col'], ','.join(a))
 
 
-def enc_result(res, ids):
+def enc_result(res, ids, tcols):
     out = proj_table(res, ids)
-    out['cols'] = sorted(out['cols'])
+    pos = {c: k for k, c in enumerate(tcols)}
+    out['cols'] = sorted(out['cols'], key=lambda c: (pos.get(c, len(pos)), str(c)))      # the column order is not the statement's business
     out['kind'] = 'table'
     return out
 
 
-def run_session(t_abs, pool_abs, calls):
-    """replay a history on ONE real table with ONE set of filter objects; every call is logged with its outcome and
-    with the pool and the table (and, for a call made on the previous result, that result) as the caller sees them afterwards"""
+def apply_edit(e, objs, reg):
+    """the caller edits one of his objects in place"""
+    if e['what'] == 'list':
+        L, new = reg.lists[e['id']], seq(e['new'])
+        old = [tag(x, reg.ids) for x in L]
+        if new == old[:-1]: L.pop()
+        elif new[:-1] == old: L.append(untag(new[-1], reg.ids))
+        elif not new: L.clear()
+        else: L[:] = [untag(x, reg.ids) for x in new]
+    elif e['what'] == 'set':
+        objs[e['slot'] - 1][reg.names[e['col']]] = reg.cc_obj(e['new'])
+    else:
+        del objs[e['slot'] - 1][reg.names[e['col']]]
+
+
+def norm_entry(c):
+    if c['op'] == 'edit':
+        return {'op': 'edit', 'what': c['what'], 'id': c['id'], 'slot': c['slot'], 'col': c['col'], 'new': seq(c['new'])}
+    return {'op': c['op'], 'col': c['col'], 'pos': seq(c['pos']), 'kw': c['kw'], 'x': c['x'], 'on': c.get('on', 't'), 'src': c.get('src', 'live')}
+
+
+def run_session(t_abs, u_abs, pool_abs, entries, nm):
+    """replay a history on ONE pair of real tables with ONE set of filter objects; every call is logged with its outcome and
+    with the pool, the tables (and, for a call made on the previous result, that result; for a call with fresh objects, those)
+    as the caller sees them afterwards"""
+    names = nm['f']
     ids = IdMap()
-    d = table_from(t_abs, ids)
-    objs = render_pool(pool_abs, ids)
-    o = {'op': 'session', 't': t_abs, 'pool': [enc_obj(x, ids) for x in objs], 'calls': []}
+    rt, ru = ren_table(t_abs, names), ren_table(u_abs, names)
+    d, du = table_from(rt, ids), table_from(ru, ids)
+    reg = Objects(ids, names, rt['cols'])
+    objs = [reg.render(f) for f in pool_abs]
+    o = {'op': 'session', 't': t_abs, 'u': u_abs, 'nm': nm, 'pool': pool_abs, 'calls': []}
     last = None                                             # the table object the previous call returned
-    for c in calls:
-        c = {'op': c['op'], 'col': c['col'], 'pos': seq(c['pos']), 'kw': c['kw'], 'x': c['x'], 'on': c.get('on', 't')}
+    old = reg.fresh_copy(objs)                              # the caller's objects by value, before his latest edit
+    for c in entries:
+        c = norm_entry(c)
+        if c['op'] == 'edit':
+            old = reg.fresh_copy(objs)
+            apply_edit(c, objs, reg)
+            o['calls'].append({'call': c, 'pool_after': [reg.enc(x) for x in objs]})
+            continue
         if c['on'] == 'last' and last is None:              # nothing to chain on (the previous call did not return a table)
             c['on'] = 't'
-        args = [objs[s - 1] for s in c['pos']]
-        kw = objs[c['kw'] - 1] if c['kw'] else {}
-        opd = d if c['on'] == 't' else last
+        areg, aobjs = (reg, objs) if c['src'] == 'live' else old[0].fresh_copy(old[1])
+        args = [aobjs[s - 1] for s in c['pos']]
+        kw = aobjs[c['kw'] - 1] if c['kw'] else {}
+        opd = {'t': d, 'u': du, 'last': last}[c['on']]
         res = None
         try:
             if c['op'] == 'find':
-                out = {'kind': 'val', 'v': tag(getattr(opd, 'find_' + c['col'])(*args, **kw), ids)}
+                out = {'kind': 'val', 'v': tag(getattr(opd, 'find_' + names[c['col']])(*args, **kw), ids)}
             elif c['op'] == 'one':
-                row = opd.one_or_none(*args, exc=objs[c['x'] - 1], **kw) if c['x'] else opd.one_or_none(*args, **kw)
+                row = opd.one_or_none(*args, exc=aobjs[c['x'] - 1], **kw) if c['x'] else opd.one_or_none(*args, **kw)
                 out = {'kind': 'none'} if row is None else {'kind': 'row', 'row': {k: tag(v, ids) for k, v in row.items()}}
             else:
                 res = opd.inc(*args, **kw) if c['op'] == 'inc' else opd.exc(*args, **kw)
-                out = enc_result(res, ids)
+                out = enc_result(res, ids, rt['cols'])
         except Exception as e:
             out = {'kind': 'exc', 'cls': type(e).__name__}
-        o['calls'].append({'call': c, 'out': out, 'pool_after': [enc_obj(x, ids) for x in objs], 't_after': proj_table(d, ids),
-                           'opd_after': enc_result(opd, ids) if c['on'] == 'last' else {'kind': 't'}})
+        o['calls'].append({'call': c, 'out': out, 'pool_after': [reg.enc(x) for x in objs],
+                           'args_after': [areg.enc(x) for x in aobjs] if c['src'] == 'old' else [],
+                           't_after': proj_table(d, ids), 'u_after': proj_table(du, ids),
+                           'opd_after': enc_result(opd, ids, rt['cols']) if c['on'] == 'last' else {'kind': c['on']}})
         last = res
     return o
 
 
 def session_case(o, k):
-    """the history up to and including call k (1-based) - what a violation is reported and matched on"""
+    """the history up to and including entry k (1-based) - what a violation is reported and matched on"""
     calls = [e['call'] for e in o['calls'][:k]]
     return {'op': 'session', 'form': spelled(calls[-1], o['pool']), 'forms': [spelled(c, o['pool']) for c in calls],
-            't': o['t'], 'pool': o['pool'], 'calls': calls}
+            'naming': [o['nm']['f'][c] for c in o['t']['cols']], 'reals': sorted({f['real'] for f in o['pool']} - {'dict'}),
+            't': o['t'], 'u': o['u'], 'nm': o['nm'], 'pool': o['pool'], 'calls': calls}
 
 
 OUTCOME_CLAUSE = {'inc': 'inc_rows', 'exc': 'exc_rows', 'find': 'find_value', 'one': 'one_or_none'}
 
 
-CALL_KEYS = {'pos', 'kw', 'op', 'col', 'x', 'on'}
+CALL_KEYS = {'pos', 'kw', 'op', 'col', 'x', 'on', 'src'}
+EDIT_KEYS = {'op', 'what', 'id', 'slot', 'col', 'new'}
+POOL_KEYS = {'kind', 'name', 'items', 'real'}
 
 
 def well_formed(s):
     """TLC's workers sort records in place; a record printed while another worker sorts it has been seen to lose a field.
     Such a line is a fault of the transport, not a case: the generator is run again."""
     try:
-        return (set(s) == {'t', 'pool', 'snap', 'hist'} and set(s['t']) == {'cols', 'rows'}
-                and all(set(f) == {'kind', 'name', 'items'} for f in seq(s['pool']) + seq(s['snap']))
-                and all(set(h) == {'call', 'opd', 'want'} and set(h['call']) == CALL_KEYS and seq(h['want'])
-                        and all('kind' in w for w in seq(h['want'])) and 'kind' in h['opd'] for h in seq(s['hist'])))
+        return (set(s) == {'t', 'u', 'nm', 'pool', 'rt', 'ru', 'snap', 'hist'} and all(set(x) == {'cols', 'rows'} for x in (s['t'], s['u'], s['rt'], s['ru']))
+                and set(s['nm']) == {'f', 'ident'} and set(s['nm']['f']) == set('abcd')
+                and all(set(f) == POOL_KEYS for f in seq(s['pool']) + seq(s['snap']))
+                and all(set(h) == {'call', 'opd', 'want', 'snap', 'argsnap'} and all(set(f) == POOL_KEYS for f in seq(h['snap']) + seq(h['argsnap']))
+                        and (set(h['call']) == EDIT_KEYS if h['call'].get('op') == 'edit' else
+                             set(h['call']) == CALL_KEYS and seq(h['want']) and all('kind' in w for w in seq(h['want'])) and 'kind' in h['opd'])
+                        for h in seq(s['hist'])))
     except Exception:
         return False
 
@@ -276,60 +403,114 @@ def gen_sessions(ctx, cfg, **kw):
     raise Machinery('C06 sessions: %s printed malformed histories three times in a row' % cfg)
 
 
+def interesting(entries):
+    """a history that is more than a sequence of plain single-filter calls"""
+    return any(c['op'] == 'edit' or len(seq(c['pos'])) + (1 if c['kw'] else 0) >= 2 for c in entries)
+
+
 def s2c_sessions(ctx, snaps, label):
-    """replay the histories TLC enumerated: after every call the pool and the table must equal the state TLC printed, the
+    """replay the histories TLC enumerated: after every call the pool and the tables must equal the state TLC printed, the
     outcome must be one of those the law allows (plain == / membership in the printed list)"""
     from harness.core import Machinery
     for k, s in enumerate(snaps):
         hist = seq(s['hist'])
-        o = run_session(s['t'], s['pool'], [h['call'] for h in hist])
-        if o['pool'] != s['snap']:
-            raise Machinery('C06 sessions: the rendered pool does not encode back to what TLC printed: %r / %r' % (o['pool'], s['snap']))
+        o = run_session(s['t'], s['u'], seq(s['pool']), [h['call'] for h in hist], s['nm'])
         ctx.evals += len(hist)
         ctx.traces += 1
         for i, (h, e) in enumerate(zip(hist, o['calls'])):
-            if e['t_after'] != s['t'] or e['opd_after'] != h['opd']:
-                clause, detail = 'operand_changed', {'after': e['t_after'], 'operand_after': e['opd_after']}
-            elif e['pool_after'] != s['snap']:
-                clause, detail = 'filter_argument_changed', {'pool_after': e['pool_after']}
+            if e['call']['op'] == 'edit':
+                if e['pool_after'] != seq(h['snap']):
+                    raise Machinery('C06 sessions: the rendered edit does not encode back to what TLC printed: %r / %r' % (e['pool_after'], h['snap']))
+                continue
+            if e['t_after'] != s['rt'] or e['u_after'] != s['ru'] or e['opd_after'] != h['opd']:
+                clause, detail = 'operand_changed', {'after': e['t_after'], 'second_after': e['u_after'], 'operand_after': e['opd_after']}
+            elif e['pool_after'] != seq(h['snap']):
+                clause, detail = 'filter_argument_changed', {'pool_after': e['pool_after'], 'pool_expected': seq(h['snap'])}
+            elif e['args_after'] != seq(h['argsnap']):
+                clause, detail = 'filter_argument_changed', {'fresh_arguments_after': e['args_after'], 'expected': seq(h['argsnap'])}
             elif e['out'] not in seq(h['want']):
                 clause, detail = OUTCOME_CLAUSE[h['call']['op']], {'expected_one_of': seq(h['want']), 'observed': e['out']}
             else:
                 continue
             ctx.violation(clause, session_case(o, i + 1), detail)
             break
-        if any(len(seq(h['call']['pos'])) + (1 if h['call']['kw'] else 0) >= 2 for h in hist):
+        if interesting([h['call'] for h in hist]) or s['nm']['f']['a'] != 'a' or any(f['real'] not in ('dict', 'lambda') for f in seq(s['pool'])):
             ctx.note((label, k))
         if k % 4999 == 1:
-            ctx.sample({'s2c_session': {'t': s['t'], 'pool': s['pool'], 'hist': hist}})
+            ctx.sample({'s2c_session': {'t': s['rt'], 'pool': s['pool'], 'hist': hist}})
+
+
+NAMINGS = [IDENTITY,
+           {'a': 'data', 'b': 'key', 'c': 'columns', 'd': 'value'}, {'a': 'columns', 'b': 'data', 'c': 'key', 'd': 'item'},
+           {'a': 'function', 'b': 'value', 'c': 'data', 'd': 'functions'}, {'a': 'self', 'b': 'filters', 'c': 'exc', 'd': 'find'},
+           {'a': 'b', 'b': 'a', 'c': 'd', 'd': 'c'}, {'a': 'exc', 'b': 'find', 'c': 'self', 'd': 'res'},
+           {'a': 'functions', 'b': 'row', 'c': 'item', 'd': 'keys'}, {'a': 'x y', 'b': '1', 'c': 'a', 'd': '-'},
+           {'a': 'key', 'b': 'columns', 'c': 'value', 'd': 'data'}]
 
 
 def rand_session(rng):
-    """a random history on a random table: 2-5 pool objects, 2-6 calls each taking 0-3 of them"""
+    """a random history on a random table: 2-5 pool objects, 2-6 calls each taking 0-3 of them, the caller's edits in between,
+    fresh objects with the old contents, a second table, a random naming and random realisations of the callables"""
     t, sub = rand_table(rng, 8)
+    u = {'cols': t['cols'], 'rows': [{c: rng.choice(sub) for c in t['cols']} for _ in range(rng.choice([0, 1, 3, 5]))]}
     cols = t['cols']
+    f = rng.choice(NAMINGS) if rng.random() < 0.5 else IDENTITY
+    nm = {'f': f, 'ident': all(f[c].isidentifier() for c in 'abcd')}        # (the spec's attribute of a naming: all names are identifiers)
     wild = rng.random() < 0.15            # now and then two filters disagree on a column: outside the domain, the spec says so
+    nlist = [0]
+    def vals(k):
+        return [rng.choice(sub + [["i", 99]]) for _ in range(k)]
     def cc():
         q = rng.random()
         if q < 0.45:
             return ['val', rng.choice(sub + [["i", 99]])]
         if q < 0.8:
-            return ['list', [rng.choice(sub + [["i", 99]]) for _ in range(rng.choice([0, 1, 2, 3]))]]
+            nlist[0] += 1                 # a list OBJECT of its own
+            return ['list', vals(rng.choice([0, 1, 2, 3])), nlist[0]]
         return ['re', rng.choice(sorted(REGEX))]
-    by_col = {c: cc() for c in cols}
+    by_col = {c: cc() for c in cols}      # a list condition reused by several dicts is one list object held by all of them
     pool = []
     for _ in range(rng.choice([2, 3, 3, 4, 5])):
         r = rng.random()
         if r < 0.2:
-            pool.append({'kind': 'pred', 'name': rng.choice(sorted(PREDS)), 'items': []})
+            pool.append({'kind': 'pred', 'name': rng.choice(sorted(PREDS)), 'real': rng.choice(REALS), 'items': []})
         elif r < 0.27:
-            pool.append({'kind': 'dict', 'name': '', 'items': []})
+            pool.append({'kind': 'dict', 'name': '', 'real': 'dict', 'items': []})
         else:
             cs = rng.sample(cols, rng.choice([1, 1, 2, min(3, len(cols))]))
-            pool.append({'kind': 'dict', 'name': '', 'items': [[c, cc() if wild else by_col[c]] for c in cs]})
+            pool.append({'kind': 'dict', 'name': '', 'real': 'dict', 'items': [[c, cc() if wild else by_col[c]] for c in cs]})
     dicts = [i + 1 for i, f in enumerate(pool) if f['kind'] == 'dict']
-    calls = []
+    view = copy.deepcopy(pool)            # (only to draw edits that make sense: which columns a dict has, how long a list is)
+    calls, edited = [], False
     for _ in range(rng.choice([2, 3, 4, 6])):
+        prevc = [c for c in calls if c['op'] != 'edit']
+        if prevc and calls[-1]['op'] != 'edit' and dicts and rng.random() < 0.3:
+            used = [s for s in list(prevc[-1]['pos']) + [prevc[-1]['kw']] if s and view[s - 1]['kind'] == 'dict'] or dicts
+            s = rng.choice(used)
+            items = view[s - 1]['items']
+            lists = [cnd for _, cnd in items if cnd[0] == 'list']
+            q = rng.random()
+            if lists and q < 0.5:
+                cnd = rng.choice(lists)
+                new = rng.choice([cnd[1][:-1], cnd[1] + vals(1), [], vals(2)])
+                e = {'op': 'edit', 'what': 'list', 'id': cnd[2], 'slot': 0, 'col': '', 'new': new}
+                for g in view:
+                    for it in g['items']:
+                        if it[1][0] == 'list' and it[1][2] == cnd[2]:
+                            it[1] = ['list', new, cnd[2]]
+            elif items and q < 0.7:
+                c0 = rng.choice(items)[0]
+                e = {'op': 'edit', 'what': 'del', 'id': 0, 'slot': s, 'col': c0, 'new': []}
+                view[s - 1]['items'] = [it for it in items if it[0] != c0]
+            else:
+                c0 = rng.choice(cols)
+                new = ['val', rng.choice(sub)]
+                e = {'op': 'edit', 'what': 'set', 'id': 0, 'slot': s, 'col': c0, 'new': new}
+                if any(it[0] == c0 for it in items):
+                    view[s - 1]['items'] = [[c0, new] if it[0] == c0 else it for it in items]
+                else:
+                    items.append([c0, new])
+            calls.append(e); edited = True
         op = rng.choice(['inc', 'inc', 'exc', 'exc', 'find', 'one'])
         pos = [rng.randrange(len(pool)) + 1 for _ in range(rng.choice([0, 1, 1, 2, 2, 3]))]
         seen = False
@@ -339,11 +520,12 @@ def rand_session(rng):
                 seen = True
         kw = rng.choice(dicts) if dicts and rng.random() < 0.3 else 0
         x = rng.choice(dicts) if dicts and op == 'one' and rng.random() < 0.4 else 0
-        on = 'last' if calls and calls[-1]['op'] in ('inc', 'exc') and rng.random() < 0.3 else 't'
+        on = 'last' if prevc and calls[-1]['op'] in ('inc', 'exc') and rng.random() < 0.3 else 'u' if rng.random() < 0.2 else 't'
         if on == 'last' and rng.random() < 0.5:            # the very same arguments again, on the result
             pos, kw = list(calls[-1]['pos']), calls[-1]['kw']
-        calls.append({'op': op, 'col': rng.choice(cols) if op == 'find' else '', 'pos': pos, 'kw': kw, 'x': x, 'on': on})
-    return t, pool, calls
+        src = 'old' if edited and on != 'last' and rng.random() < 0.4 else 'live'
+        calls.append({'op': op, 'col': rng.choice(cols) if op == 'find' else '', 'pos': pos, 'kw': kw, 'x': x, 'on': on, 'src': src})
+    return t, u, pool, calls, nm
 
 
 def rand_table(rng, nmax):
@@ -403,18 +585,26 @@ def c2s(ctx, ntables, nsessions):
         if o['op'] == 'session':
             k, clause = clause.split(':')
             e = o['calls'][int(k) - 1]
-            ctx.violation(clause, session_case(o, int(k)), {'observed': e['out'], 'pool_after': e['pool_after'], 'after': e['t_after']})
+            ctx.violation(clause, session_case(o, int(k)), {'observed': e.get('out'), 'pool_after': e['pool_after'], 'after': e.get('t_after')})
             continue
         ctx.violation(clause, {k: o[k] for k in ('op', 't', 'cond', 'spelling', 'excl', 'find') if k in o} | ({'col': o['col']} if 'col' in o else {}),
                       {'observed': o['out'], 'after': o['after']})
     for o in obs:
         if o['op'] == 'session':
-            if any(len(e['call']['pos']) + (1 if e['call']['kw'] else 0) >= 2 for e in o['calls']):
-                ctx.note(('c2s-session', repr((o['t'], o['pool'], [e['call'] for e in o['calls']]))))
+            if interesting([e['call'] for e in o['calls']]):
+                ctx.note(('c2s-session', repr((o['t'], o['pool'], o['nm']['f'], [e['call'] for e in o['calls']]))))
         elif o['out'].get('kind') == 'table' and 0 < len(o['out']['rows']) < len(o['t']['rows']):
             ctx.note(('c2s', repr((o['t'], o['cond'], o['op']))))
     ctx.sample({'c2s_observation': obs[ntables * 2]})
     ctx.sample({'c2s_session': obs[-1]})
+
+
+def need_forms(snaps, cfg, needs):
+    from harness.core import Machinery
+    taken = {spelled(h['call'], x['pool']).replace('find_a', 'find').replace('find_b', 'find') for x in snaps for h in seq(x['hist'])}
+    for need in needs:
+        if need not in taken:
+            raise Machinery('vacuous: no generated history of %s contains a call of the form %s' % (cfg, need))
 
 
 def sessions(ctx):
@@ -423,18 +613,33 @@ def sessions(ctx):
     if ctx.quick:
         # one TLC run checks the clauses on every history of 2 calls AND prints them for the replay
         snaps = gen_sessions(ctx, 'MC_IncSession_quick.cfg')
-        taken = {spelled(h['call'], x['pool']).replace('find_a', 'find').replace('find_b', 'find') for x in snaps for h in seq(x['hist'])}
-        for need in ('inc(d,d)', 'exc(d,d)', 'find(d,d)', 'one(d,d)', 'inc(d,f)', 'exc(f,d)', 'inc(d,**d)', 'one(d,exc=d)', 'inc()', 'exc(f)', 'r.inc(d,d)', 'r.exc(d,**d)'):
-            if need not in taken:
-                raise Machinery('vacuous: no generated history of MC_IncSession_quick.cfg contains a call of the form %s' % need)
+        need_forms(snaps, 'MC_IncSession_quick.cfg', ('inc(d,d)', 'exc(d,d)', 'find(d,d)', 'one(d,d)', 'inc(d,f)', 'exc(f,d)', 'inc(d,**d)', 'one(d,exc=d)', 'inc()', 'exc(f)', 'r.inc(d,d)', 'r.exc(d,**d)'))
         s2c_sessions(ctx, snaps, 'sess2')
+        # round 4: call ; the caller edits an object of that call ; a call that can see it (live / fresh objects with the old
+        # contents, on the table / its result / a second table)
+        snaps = gen_sessions(ctx, 'MC_IncSession_edit.cfg')
+        need_forms(snaps, 'MC_IncSession_edit.cfg', ('edit-list', 'edit-set', 'edit-del', "inc(d')", "exc(**d')", "u.inc(d')", "u.find(d')", 'u.exc(d)', 'r.inc(d)', "one(d')", 'inc(**d)'))
+        s2c_sessions(ctx, snaps, 'edit')
+        # the names of the columns and the realisations of the callables as data of the case
+        snaps = gen_sessions(ctx, 'MC_IncSession_names.cfg')
+        got = {tuple(x['rt']['cols']) for x in snaps}
+        for need in (('data', 'key'), ('columns', 'data'), ('self', 'filters'), ('b', 'a'), ('x y', '1')):
+            if need not in got:
+                raise Machinery('vacuous: no generated history of MC_IncSession_names.cfg is on a table with the columns %r' % (need,))
+        s2c_sessions(ctx, snaps, 'names')
+        snaps = gen_sessions(ctx, 'MC_IncSession_reals.cfg')
+        got = {f['real'] for x in snaps for h in seq(x['hist']) for sl in seq(h['call']['pos']) for f in [x['pool'][sl - 1]] if f['kind'] == 'pred'}
+        if got != set(REALS):
+            raise Machinery('vacuous: the callables handed over in MC_IncSession_reals.cfg are realised as %r, not as %r' % (sorted(got), REALS))
+        s2c_sessions(ctx, snaps, 'reals')
     else:
         ctx.mc('MC_IncSession', 'MC_IncSession_thorough.cfg')
         # the model can express what it forbids: with `filters` BEING the caller's lone dict the pool does not survive inc(q1, q2)
         ctx.mc('MC_IncSession', 'MC_IncSession_adopt.cfg', must_fail='PoolUntouched', coverage=False)
-        for cfg in ('MC_IncSession_gen2t.cfg', 'MC_IncSession_gen2f.cfg', 'MC_IncSession_gen3a.cfg'):
+        for cfg in ('MC_IncSession_gen2t.cfg', 'MC_IncSession_gen2f.cfg', 'MC_IncSession_gen3a.cfg', 'MC_IncSession_editT.cfg', 'MC_IncSession_namesT.cfg',
+                    'MC_IncSession_reals.cfg'):
             s2c_sessions(ctx, gen_sessions(ctx, cfg), cfg[13:-4])
-        s2c_sessions(ctx, gen_sessions(ctx, 'MC_IncSession_sim.cfg', simulate=600, depth=6, seed=ctx.seed + 1, workers=1), 'sim')
+        s2c_sessions(ctx, gen_sessions(ctx, 'MC_IncSession_sim.cfg', simulate=600, depth=8, seed=ctx.seed + 1, workers=1), 'sim')
 
 
 def run(ctx):
@@ -442,10 +647,16 @@ def run(ctx):
                 'spelling; every TLC-enumerated HISTORY of 2 calls (first call: any 0-2 (thorough 3) filters of a pool of 3 caller-owned '
                 'dicts / callables in every spelling - positional, ** keywords, exc= - second call: any 0-1 filter, or the first call '
                 'again / its complement on the table it returned; thorough also any x any and simulated histories of 5) on one '
-                'real table with one set of filter objects, pool, table and chained operand snapshotted after every call; C2S: random tables (<= 30 rows, 2-4 columns) x random conditions, and random '
-                'recorded histories (2-6 calls, 2-5 pool objects), validated by Trace_Inc. '
+                'real table with one set of filter objects, pool, table and chained operand snapshotted after every call; '
+                'round 4: every history call ; THE CALLER EDITS an object he handed over, in place (a list of admissible values: pop / clear / append; '
+                'a dict: set / new key / del) ; a call that can see the edit - with the live objects (law on the contents NOW) or with FRESH '
+                'objects equal by value to the OLD contents, on the table, on its previous result, on a SECOND table; every single call and '
+                'its echo under NAMINGS of the columns (data, columns, key, self, function, exc, find, the two names swapped, non-identifiers) '
+                'and with every REALISATION of the callable (lambda, def, functools.partial, object with __call__, bound / class method, '
+                'try_false / try_none / kwargs_support = dict subclass instances); C2S: random tables (<= 30 rows, 2-4 columns) x random conditions, and random '
+                'recorded histories (2-6 calls, 2-5 pool objects, random edits in between, fresh old-valued arguments, second table, random naming and realisations), validated by Trace_Inc. '
                 'Non-trivial = the condition selects some but not all rows (distinct by table, condition, op); for histories: '
-                'some call hands over >= 2 filters (distinct by table, pool, calls).')
+                'some call hands over >= 2 filters or the caller edits an object, or the naming / realisation is not the plain one (distinct by table, pool, naming, calls).')
     ctx.mc('MC_Inc', 'MC_Inc_quick.cfg' if ctx.quick else 'MC_Inc_thorough.cfg')
     s2c(ctx, ctx.generate('MC_Inc', 'MC_Inc_gen1.cfg'))
     if not ctx.quick:
@@ -461,6 +672,10 @@ def run(ctx):
                         'histories: tables are grids of 2-4 a-values x 2 b-values (every row tells two filters apart), pools are a menu of 5 (thorough 12) '
                         'triples of filter objects; a column named by two filters of one call carries the same condition in both (SameColumnOnce), '
                         'at most one callable per call (SingleCallable); a list of admissible values occurring in two dicts of a pool is one shared list object',
+                        'the caller edits only objects he handed to the previous call, one edit between two calls; the second table has the same columns; '
+                        'NameExpressible: a condition on a column called self (one_or_none: also exc, find) is expressible through a dict filter only '
+                        '(Python refuses the keyword), and on a table with a column called self no callable can be used (pyg calls it with the row as '
+                        'keywords through wrapper.__call__(self, ...): TypeError - named deviation SelfColumn); callables need identifiers as column names',
                         'named deviations for a callable AND column conditions in one call: ExcMixed (two readings of exc accepted), '
                         'MixedEmptied (KeyError accepted when the callable alone accepts no row - reported as a defect of inc)']
 
@@ -468,7 +683,7 @@ def run(ctx):
 def replay(ctx, body):
     c = body['case']
     if c['op'] == 'session':
-        o = run_session(c['t'], c['pool'], c['calls'])
+        o = run_session(c['t'], c.get('u', c['t']), c['pool'], c['calls'], c.get('nm', {'f': IDENTITY, 'ident': True}))
     else:
         o = observe_one2(c['t'], c['cond'], c['excl'], c['find'], c['spelling']) if c['op'] == 'one2' else observe(c['t'], c['cond'], c['op'], c['spelling'], c.get('col'))
     bad = ctx.validate('Trace_Inc', [o])
